@@ -108,7 +108,9 @@ Definition spec_lit (s : list N) : string :=
 Definition spec_idv (off : nat) (s : list N) : string :=
   let t := skipn off s in
   if plain_identifier t then
-    if mem_bytes t reserved_words then "RESERVED" else "NAME " ++ hex_of_bytes t
+    if mem_bytes t reserved_words then "RESERVED"
+    else if existsb (fun w => String.eqb (fst w) (string_of_bytes t)) word_literals then "NOSPEC word-literal-not-reserved"
+    else "NAME " ++ hex_of_bytes t
   else "NOSPEC not-an-identifier".
 
 Definition spec_line (l : string) : string :=
